@@ -2,7 +2,7 @@
 Candidates are only *candidates*: the specification's Domain pass decides which are in the documented domain."""
 import itertools, random
 from .core import cp, uncp
-from .defs import variant, field, enum, STYLES, ALIASES
+from .defs import variant, field, enum, STYLES, ALIASES, TYPES
 
 IDENTS = ["Red", "Green", "BlueGreen", "HTTPServer", "Ab12Cd", "V2", "Xml2Json", "A", "Ab", "Yellow", "Purple",
           "DarkBlue", "X1", "IOError", "MyVariant", "Kelvin", "Ks", "Sharp", "Foo_Bar", "snake_id", "SHOUT", "Option2",
@@ -12,7 +12,7 @@ LITS = ["blue", "b", "Blue", "BLUE", "light-blue", "Light Blue", "r", "red", "RE
         "dotlessı", "semi;colon", "quo\"te", "back\\slash", "tab\there", "new\nline", "\U0001F600", "x_y", "X-Y",
         "fin", "ﬁn", "zero​width", "purp", "black", "white", "bla", "Zq", "camelCase", "snake_case"]
 FIELD_NAMES = ["f", "s", "x", "v", "val", "value", "idx", "func", "field0", "discriminant", "phf", "name", "n"]
-PLAIN_TYPES = ["u8", "i32", "bool", "String", "opt", "tricky"]
+PLAIN_TYPES = ["u8", "i32", "bool", "String", "opt", "tricky", "unit", "arr2", "tup", "optstr"]
 
 
 def rand_fields(rng, kind, n, generics):
@@ -66,12 +66,12 @@ def rand_variant(rng, ident, generics, allow_default=True, allow_disabled=True, 
     # default_with: variant level on 1-field tuple, field level on named fields (the documented forms)
     if kind == "tuple" and nf == 1 and fields[0]["ty"] in PLAIN_TYPES and rng.random() < 0.3:
         from .defs import TYPES
-        v["dwith"] = TYPES[fields[0]["ty"]][4]
+        v["dwith"] = TYPES[fields[0]["ty"]][4] or ""
     if kind == "named":
         from .defs import TYPES
         for f in fields:
             if f["ty"] in PLAIN_TYPES and rng.random() < 0.3:
-                f["dw"] = TYPES[f["ty"]][4]
+                f["dw"] = TYPES[f["ty"]][4] or ""
     return v
 
 
@@ -105,7 +105,8 @@ def sample_def(rng, did, nmax=8, perr=None, phf=False, fieldless=False, default_
     if phf is None:
         phf = generics == "none" and all(v["kind"] == "unit" or v["def"] for v in vs) and rng.random() < 0.5
     E = enum(did, vs, style=style, aci=rng.random() < 0.3, phf=phf, generics=generics, split=rng.randrange(2),
-             perr=(rng.random() < 0.4 if perr is None else perr) and not has_def)
+             perr=(rng.random() < 0.4 if perr is None else perr) and not has_def,
+             prefix=rng.choice([None, None, None, "p/", " "]))        # a prefix belongs to the printing derives: EnumString ignores it
     return ensure_generic_use(rng, E)
 
 
@@ -293,6 +294,17 @@ def gen_inputs(E, facts, rng, cap, flip_limit=6):
     for s in sps:
         push(must, s)
     push(must, "")
+    if prefix:
+        # the printed form (prefix + spelling) is no spelling; neither is the prefix alone, nor the prefix in front of anything else
+        for s in sps[:6]:
+            push(must, prefix + s)
+        push(must, prefix)
+        push(must, prefix + "teal")
+    # long inputs: 63 / 64 / 65 bytes and more (length-indexed tables and masks end somewhere)
+    for n in (63, 64, 65, 128, 300):
+        push(must, "x" * n)
+    if sps:
+        push(must, sps[0] + "y" * 70)
     for v in E["variants"]:
         ident = uncp(v["id"])
         push(must, ident)
@@ -341,6 +353,10 @@ def names_def(rng, did, allow_prefix=True, styles=None, fieldless=False, nmax=6)
         if mode in ("ts", "both"):
             ts = rng.choice(NAME_LITS)
         v = variant(ident, kind, fields, ser=ser, ts=ts, dis=rng.random() < 0.1, aci=rng.choice([2, 2, 1, 0]))
+        if rng.random() < 0.15:
+            v["docattrs"] = [(0, rng.choice(["#[doc(hidden)]", '#[doc(alias = "nick")]']))]
+        if kind == "tuple" and len(fields) == 1 and TYPES[fields[0]["ty"]][4] and rng.random() < 0.3:
+            v["dwith"] = TYPES[fields[0]["ty"]][4]          # consumed by EnumString only
         r = rng.random()
         if not fieldless and r < 0.07:
             v = default_variant(rng, ident)
